@@ -133,6 +133,7 @@ def run_history(start, hist, ctx, valfn):
 
     def mk():
         env = Env(symbolic=ctx is not None)
+        env.share_subexpressions = True  # one library object per distinct sub-expression, as a caller who keeps `inner = -a` around has
         rows = [{c: valfn("X", c, i) for c in "abc"} for i in range(N)]
         env.add_iter_leaf("X", "abc", rows, engine="it1", messages=[])  # an (empty) list, as callers pass
         if start == "C":
